@@ -33,6 +33,15 @@ CLAIMED = {
  "C03": ("same conversion monitor as C02 over documents with clipPaths; the reference evaluator implements clip regions (union of children under clip-rule, clipPath/child transforms, nested clip-path, user space of the referencing element incl. use translate); stacks equal outside the band of every involved edge; no clip-path left",
          "Each conversion is judged at ~250 points; counters prove that clips decided thousands of retained points and that rule-sensitive (nonzero != evenodd) points were present. Held-on-observed.",
          "Trusts ref/render.py; clip-rule inheritance, transform+clip-path on one clipPath and clipPathUnits are not generated (scope decisions).", "3/C03"),
+ "C04": ("conversion monitor with a three-valued reference model of the ideal SVG stroke region (evaluated in the shape's local coordinate system: perpendicular foot inside an on-dash with margins, miter/cap reach for 'definitely outside', engine arclength-drift margin); composited colours of source and output compared at retained points; deviations reproduced by a direct skia-pathops stroke at tight curvature are attributed to the engine (known finding)",
+         "Each conversion of a generated stroked document is judged at ~250 points, of which the definitely-inside/outside ones are retained. Held-on-observed; caps, joins and dash ends have uncertain zones of width ~0.8 where nothing is claimed.",
+         "Trusts ref/stroke.py (delta 0.4 local units + band). Scope as stated: own opacity 1 or a single visible piece.", "3/C04"),
+ "C05": ("conversion monitor comparing the composited RGBA (reference cascade + group-opacity compositing) of source and output at retained points; known-finding classes are recognised by simulating their mechanism in the reference model and requiring the output to match the simulation everywhere sampled",
+         "Each conversion of a generated cascade document (attributes, styles, both; root/group/use/shape level; translucent overlapping groups) is judged at ~250 points within 4e-3. Held-on-observed.",
+         "Trusts ref/cascade.py and the compositing in ref/render.py; inherit/currentColor not generated.", "3/C05"),
+ "C06": ("conversion monitor comparing the colour the reference gradient model assigns in the source with the colour of the converted document at retained interior points; output gradients checked for self-containment",
+         "Each conversion of a generated gradient document (both units, percentages, transforms, spread methods, focal points, href chains, shared gradients under one transform) is judged at ~250 points within 6e-3. Held-on-observed.",
+         "Trusts ref/gradient.py. Degenerate bounding boxes and focal points outside the circle are not generated.", "3/C06"),
 }
 NOT_YET = "check not built yet in this session (build in progress; see DESIGN.md section 8 for the construction order)"
 
